@@ -370,6 +370,45 @@ let handle_cli (toks : string list) : string =
      | CPanic -> "panic" | CRunning -> "running")
   | _ -> "bad:args"
 
+(* ---- compiler ---- *)
+let rec tree_bounds (t : dtree) : string list =
+  match t with DLeaf _ -> [] | DNode (b, lo, hi) -> nstr b :: (tree_bounds lo @ tree_bounds hi)
+(* compir <fx89> <level> <prog>: the IR the compiler model builds *)
+let handle_compir (toks : string list) : string =
+  match toks with
+  | f89 :: lv :: rest ->
+    let code = parse (cps_of_field (match rest with [] -> "" | t :: _ -> t)) in
+    (match compile_prog all_fixed (f89 = "1") code (n_of_int (int_of_string lv)) with
+     | None -> "none"
+     | Some p ->
+       let n = List.length p.ir_blocks in
+       Printf.sprintf "blocks=%d|sizes=%s|start=%s|last=%s|cur=%s|points=%s|tree=%s|stacks=%s|out=%s|err=%s" n
+         (String.concat "," (List.map (fun b -> string_of_int (List.length b)) p.ir_blocks))
+         (nstr p.ir_start) (match p.ir_last with None -> "-" | Some l -> nstr l) (nstr p.ir_cur)
+         (String.concat "," (List.map (fun (a, b) -> nstr a ^ ":" ^ nstr b)
+            (List.sort (fun (a, _) (b, _) -> ZZ.compare (zz_of_n a) (zz_of_n b)) p.ir_points)))
+         (String.concat "," (tree_bounds (dispatch_tree (n_of_int n))))
+         (String.concat ";" (List.map (fun (i, l) -> nstr i ^ ":" ^ String.concat "," (List.map utf8_of_cps l))
+            (List.sort (fun (a, _) (b, _) -> ZZ.compare (zz_of_n a) (zz_of_n b)) p.ir_stacks)))
+         (dotted p.ir_out) (dotted p.ir_err))
+  | _ -> "bad:args"
+(* comp <fx89> <level> <fuel> <prog> <stdin>: run the IR *)
+let handle_comp (toks : string list) : string =
+  match toks with
+  | f89 :: lv :: ms :: prog :: rest ->
+    let code = parse (cps_of_field prog) in
+    let input = split_lines (match rest with [] -> [] | t :: _ -> cps_of_field t) [] in
+    (match compile_prog all_fixed (f89 = "1") code (n_of_int (int_of_string lv)) with
+     | None -> "none"
+     | Some p ->
+       let fin = ir_run (nat_of_int (int_of_string ms)) p input in
+       let show tag (s : state) = Printf.sprintf "END:%s|o=%s|e=%s" tag (dotted (List.rev s.outb)) (dotted (List.rev s.errb)) in
+       (match fin with
+        | IDone s -> show "done" s | IExit (c, s) -> show ("exit" ^ nstr c) s
+        | IAbort (k, s) -> show ("err:enc:" ^ nstr k) s | IIoErr s -> show "err:io" s
+        | IFuel s -> show "fuel" s | IBadState -> "END:badstate|o=|e="))
+  | _ -> "bad:args"
+
 let () =
   try
     while true do
@@ -389,6 +428,8 @@ let () =
           | "repl" :: rest -> handle_repl rest
           | "debug" :: rest -> handle_debug rest
           | "cli" :: rest -> handle_cli rest
+          | "compir" :: rest -> handle_compir rest
+          | "comp" :: rest -> handle_comp rest
           | ("opt" | "optpin" as w) :: "run" :: rest -> handle_opt_run w rest
           | ("opt" | "optpin" as w) :: "state" :: rest -> handle_opt_state w rest
           | "spec" :: "run" :: rest -> handle_spec_run rest
